@@ -322,8 +322,8 @@ impl Prop for C09 {
   }
   fn params(&self, tier: Tier) -> Params {
     match tier {
-      Tier::Quick => Params { cases: 40_000, tape_len: 1500, workers: 14, stack_mb: 8, worker_timeout_s: 900 },
-      Tier::Thorough => Params { cases: 800_000, tape_len: 5000, workers: 16, stack_mb: 8, worker_timeout_s: 4 * 3600 },
+      Tier::Quick => Params { cases: 40_000, tape_len: 1500, workers: 14, stack_mb: 8, worker_timeout_s: 900, shrink_iters: 4000 },
+      Tier::Thorough => Params { cases: 800_000, tape_len: 5000, workers: 16, stack_mb: 8, worker_timeout_s: 4 * 3600, shrink_iters: 4000 },
     }
   }
   fn generate(&self, t: &mut Tape, tier: Tier) -> Value {
